@@ -191,6 +191,7 @@ func (e *Eng) evalCall(x *ast.CallExpr, c *ctx) Val {
 			if sel, ok := e.info.Selections[f]; ok && sel.Kind() == types.MethodVal {
 				fn = sel.Obj().(*types.Func)
 				rv := e.eval(f.X, c)
+				e.implicitAddr(f.X, fn)
 				// walk embedded fields to the actual receiver
 				if idx := sel.Index(); len(idx) > 1 && !isAccessorPkg(fn) {
 					rv = e.walkFields(rv, sel.Recv(), idx[:len(idx)-1], c, f)
@@ -695,6 +696,18 @@ func (e *Eng) calleePkgCtx(con *Contract, fi *FuncInfo, c *ctx, env map[string]V
 }
 
 func (e *Eng) applyContract(con *Contract, fi *FuncInfo, name string, recv *Val, args []Val, resT types.Type, x *ast.CallExpr, c *ctx) Val {
+	for _, sf := range con.Spec {
+		// the callee's contract may mention spec functions the caller does not import itself
+		have := false
+		for _, x := range e.specFiles {
+			if x == sf {
+				have = true
+			}
+		}
+		if !have {
+			e.specFiles = append(e.specFiles, sf)
+		}
+	}
 	env, resNames := e.contractEnv(con, fi, recv, args)
 	cc := e.calleePkgCtx(con, fi, c, env, nil)
 	ord := e.callOrd[x]
